@@ -9,7 +9,27 @@ from extractlib import *
 # `panic!`-family macros, literal indexing) of the two parsers.
 # ---------------------------------------------------------------------------
 
-PANIC_PAT = re.compile(r"\.unwrap\(\)|\.expect\(|\bpanic!|\bunreachable!|\bunimplemented!|\btodo!|\bassert(?:_eq|_ne)?!|\.unwrap_unchecked\(")
+# Textual scan (audit-c H3).  What it establishes is "no TEXTUAL occurrence of these constructs in the scanned
+# bodies" — not panic-freedom: a panic inside a callee that is not scanned (url, regex, std) is invisible to it.
+#  * unwrap / expect in every spelling (`.unwrap ()`, `Option::unwrap(x)`, `Result::expect`), the panic!/assert!
+#    families, `unwrap_unchecked`;
+#  * library calls that panic on a bad index / length / borrow: split_at, remove, swap_remove, insert, drain, swap,
+#    copy_from_slice, clone_from_slice, split_off, truncate-free list; RefCell borrows; `from_utf8_unchecked`; `exit(`;
+#  * (reported separately) every indexing / slicing expression `x[i]`, `x[a..b]`;
+#  * (reported separately) every binary integer-style arithmetic operator `+ - * / % << >>` (and `op=`) between two
+#    operands — overflow-checks = true makes them panic sites; string concatenation would be listed as well.
+PANIC_PAT = re.compile(
+    r"\.\s*unwrap\s*\(\s*\)|\.\s*expect\s*\(|\b(?:Option|Result)\s*::\s*(?:unwrap|expect)\b"
+    r"|\bpanic!|\bunreachable!|\bunimplemented!|\btodo!|\b(?:debug_)?assert(?:_eq|_ne)?!|\bunwrap_unchecked\b"
+    r"|\.\s*(?:split_at|split_at_mut|remove|swap_remove|insert|drain|swap|split_off|copy_from_slice|clone_from_slice"
+    r"|copy_within|rotate_left|rotate_right|borrow|borrow_mut|unwrap_err|expect_err|get_unchecked|get_unchecked_mut)\s*\("
+    r"|\bfrom_utf8_unchecked\b|\bexit\s*\(|\bunsafe\b")
+# x[...] where x ends in an identifier character, `)`, `]` or `?`  (not `#[attr]`, `vec![…]`, `&[T]`, `[T; N]`, `|re| [re]`)
+INDEX_PAT = re.compile(r"(?<=[\w)\]?])\[([^\[\]]*)\]")
+# binary arithmetic: operand, operator, operand (`->`, `=>`, unary `*x` / `-x`, `&x`, generics are not matched)
+ARITH_PAT = re.compile(r"(?<=[\w)\]])\s*(?:<<|>>|[-+*/%])=?\s*(?=[\w(])(?<!->)")
+CALL_PAT = re.compile(r"((?:[A-Za-z_]\w*\s*::\s*)*[A-Za-z_]\w*!?)\s*\(")
+KEYWORDS = {"if", "match", "while", "for", "return", "fn", "let", "Some", "Ok", "Err", "None", "loop", "in", "as", "move"}
 
 
 def strip_comments_keep_strings(src):
@@ -54,15 +74,77 @@ def region(src, start_pat, end_pat, what):
     return src[m.end(): m.end() + e.start()]
 
 
+def blank_literals(body):
+    """string and char literals replaced by `""` / `' '` so that their contents cannot look like code"""
+    out = []
+    i, n = 0, len(body)
+    while i < n:
+        c = body[i]
+        if c == '"':
+            j = i + 1
+            while j < n and body[j] != '"':
+                j += 2 if body[j] == "\\" else 1
+            out.append('""')
+            i = j + 1
+        elif c == "'" and re.match(r"'(?:\\.[^']*|[^'\\])'", body[i:]):
+            m = re.match(r"'(?:\\.[^']*|[^'\\])'", body[i:])
+            out.append("' '")
+            i += m.end()
+        else:
+            out.append(c)
+            i += 1
+    return "".join(out)
+
+
+def line_of(body, a, b):
+    la = body.rfind("\n", 0, a) + 1
+    lb = body.find("\n", b)
+    lb = len(body) if lb < 0 else lb
+    return " ".join(body[la:lb].split())[:160]
+
+
 def panic_sites(body):
     """source lines (stripped) that contain a panicking construct, one entry per occurrence"""
+    return [line_of(body, m.start(), m.end()) for m in PANIC_PAT.finditer(body)]
+
+
+def index_sites(body):
+    """every indexing / slicing expression, as `…name[index]`"""
+    b = blank_literals(body)
     sites = []
-    for m in PANIC_PAT.finditer(body):
-        a = body.rfind("\n", 0, m.start()) + 1
-        b = body.find("\n", m.end())
-        b = len(body) if b < 0 else b
-        sites.append(" ".join(body[a:b].split())[:160])
+    for m in INDEX_PAT.finditer(b):
+        a = m.start()
+        while a > 0 and (b[a - 1].isalnum() or b[a - 1] in "_.)?]"):
+            a -= 1
+        sites.append(" ".join(b[a:m.end()].split())[:80])
     return sites
+
+
+def arith_sites(body):
+    """source lines with a binary arithmetic operator between two operands"""
+    b = blank_literals(body)
+    return [line_of(b, m.start(), m.end()) for m in ARITH_PAT.finditer(b)]
+
+
+def calls(body):
+    """the set of called paths / macros (what the body can reach), sorted"""
+    b = blank_literals(body)
+    found = set()
+    for m in CALL_PAT.finditer(b):
+        name = re.sub(r"\s+", "", m.group(1))
+        if name in KEYWORDS or re.search(r"\bfn\s+$", b[:m.start(1)]):
+            continue
+        # `.method(` : keep as `.method`
+        k = m.start(1)
+        while k > 0 and b[k - 1].isspace():
+            k -= 1
+        if k > 0 and b[k - 1] == ".":
+            name = "." + name
+        found.add(name)
+    # statics / constants the body reads (a `Lazy` static runs its initialiser on the first use)
+    for m in re.finditer(r"\b[A-Z][A-Z0-9_]{2,}\b", b):
+        found.add(m.group(0))
+    return sorted(found)
 
 
 def one(pat, text, what, flags=0):
@@ -131,6 +213,14 @@ def gen_source(repo):
             raise ExtractError(f"cpr.rs: Position::from_str indexes with a non-literal index: {m.group(0)}")
         idx.append(int(m.group(1)))
     idx = sorted(set(idx))
+    # callees inside the workspace that the two parsers reach: `build_serial` (serial), `AIRPORTS` (Lazy initialiser,
+    # runs on the first use) and `one_airport` (rs1090/src/data/airports.rs)
+    bser = region(src, r"\nfn\s+build_serial\(input:\s*&str\)\s*->\s*u64\s*\{", r"\n\}\n", "source.rs build_serial()")
+    air = strip_comments_keep_strings(read(repo, "crates/rs1090/src/data/airports.rs"))
+    lazy = one(r"pub\s+static\s+AIRPORTS\s*:[^=]*=\s*(.*?);\n", air, "airports.rs: static AIRPORTS", re.S).group(1)
+    oneap = region(air, r"pub\s+fn\s+one_airport\(args:\s*&\[Regex\]\)\s*->\s*Option<&Airport>\s*\{", r"\n\}\n",
+                   "airports.rs one_airport()")
+    airbody = lazy + "\n" + oneap
     exact_first = bool(re.search(r"\.find\(\|airport\|\s*airport\.icao\s*==\s*s\s*\|\|\s*airport\.iata\s*==\s*s\)", pbody))
 
     out = [HEADER, "namespace Rs1090.Gen.Source",
@@ -153,12 +243,31 @@ def gen_source(repo):
            f"def longArgs : List String := {lean_list([lm.group(2), lm.group(3)])}",
            f"def rtlsdrName : String := {lean_str(rt)}",
            f"def seroSerial : Nat := {sero}",
-           "/-- statements of `Source::from_str` that can still panic -/",
+           "/-- TEXTUAL scan of the body of `Source::from_str`: lines with unwrap/expect (any spelling), panic!/assert!",
+           "    families, split_at/remove/insert/drain/swap/copy_from_slice/…, RefCell borrows, `unsafe`, `exit(` -/",
            f"def fromStrPanicSites : List String := {lean_list(panic_sites(body))}",
-           "/-- statements of `Source::serial` that can panic -/",
-           f"def serialPanicSites : List String := {lean_list(panic_sites(ser))}",
-           "/-- `Position::from_str` -/",
+           "/-- … every indexing / slicing expression `x[i]`, `x[a..b]` -/",
+           f"def fromStrIndexSites : List String := {lean_list(index_sites(body))}",
+           "/-- … lines with a binary arithmetic operator `+ - * / % << >>` (or `op=`) -/",
+           f"def fromStrArithSites : List String := {lean_list(arith_sites(body))}",
+           "/-- … everything the body calls (paths, `.methods`, macros): what a panic could come from besides the text -/",
+           f"def fromStrCalls : List String := {lean_list(calls(body))}",
+           "/-- the same scans of `Source::serial` followed by its callee `build_serial` -/",
+           f"def serialPanicSites : List String := {lean_list(panic_sites(ser) + panic_sites(bser))}",
+           f"def serialIndexSites : List String := {lean_list(index_sites(ser) + index_sites(bser))}",
+           f"def serialArithSites : List String := {lean_list(arith_sites(ser) + arith_sites(bser))}",
+           f"def serialCalls : List String := {lean_list(sorted(set(calls(ser) + calls(bser))))}",
+           "/-- the same scans of `Position::from_str` -/",
            f"def positionPanicSites : List String := {lean_list(panic_sites(pbody))}",
+           f"def positionIndexExprs : List String := {lean_list(index_sites(pbody))}",
+           f"def positionArithSites : List String := {lean_list(arith_sites(pbody))}",
+           f"def positionCalls : List String := {lean_list(calls(pbody))}",
+           "/-- the same scans of its callees in rs1090/src/data/airports.rs: the initialiser of `static AIRPORTS`",
+           "    (runs once, on the first use) followed by `one_airport` -/",
+           f"def airportsPanicSites : List String := {lean_list(panic_sites(airbody))}",
+           f"def airportsIndexSites : List String := {lean_list(index_sites(airbody))}",
+           f"def airportsArithSites : List String := {lean_list(arith_sites(airbody))}",
+           f"def airportsCalls : List String := {lean_list(calls(airbody))}",
            f"def positionSplitChar : Char := '{split}'",
            f"def positionPieces : Nat := {pieces}",
            f"def positionIndexSites : List Nat := [{', '.join(str(i) for i in idx)}]",
